@@ -27,6 +27,11 @@ Cycles2 == {<<[d |-> 1, c |-> "green"], [d |-> 1, c |-> "red"]>>, <<[d |-> 3, c 
 QPoints == {<<1, 1>>, <<5, 1>>, <<-1, 3>>, <<2, 3>>}          \* doubled coordinates
 QTimes  == 0..4
 
+ColIdx(c) == CASE c = "red" -> 0 [] c = "green" -> 1 [] c = "yellow" -> 2
+RECURSIVE CycArg(_)
+CycArg(c) == IF c = <<>> THEN <<>> ELSE <<c[1].d, ColIdx(c[1].c)>> \o CycArg(Tail(c))
+RECURSIVE FlatPoses(_)
+FlatPoses(tr) == IF tr = <<>> THEN <<>> ELSE tr[1] \o FlatPoses(Tail(tr))
 A(op, lvl, arg) == [op |-> op, lvl |-> lvl, arg |-> arg]
 Mut(a) == act' = a /\ steps' = steps + 1 /\ UNCHANGED <<ans, exp>>
 Qry(a, got, want) == act' = a /\ steps' = steps + 1 /\ ans' = <<a.op, got>> /\ exp' = <<a.op, want>> /\ UNCHANGED P
@@ -47,11 +52,11 @@ TR(lvl, m) ==
        /\ idx' = IF nts /\ ~DEV_NoReindexOnNetworkTR THEN [i \in nt1.L |-> nt1.ring[i]] ELSE idx
        /\ UNCHANGED cinit /\ Mut(A("tr", lvl, <<m.tx, m.ty, m.q>>))
 SetTraj(tr) == /\ P.ob.has = 1 /\ P' = [P EXCEPT !.ob.traj = tr] /\ occC' = NoOcc /\ UNCHANGED <<idx, cinit>>
-               /\ Mut(A("set_trajectory", "", tr))
+               /\ Mut(A("set_trajectory", "", FlatPoses(tr)))
 SetPShape(s) == /\ P.ob.has = 1 /\ P' = [P EXCEPT !.ob.pshp = s] /\ occC' = NoOcc /\ UNCHANGED <<idx, cinit>>
                 /\ Mut(A("set_pshape", "", s))
 UpdPred(tr) == /\ P' = [P EXCEPT !.ob.has = IF tr = <<>> THEN 0 ELSE 1, !.ob.traj = tr, !.ob.pshp = P.ob.shp]
-               /\ occC' = NoOcc /\ UNCHANGED <<idx, cinit>> /\ Mut(A("update_prediction", "", tr))
+               /\ occC' = NoOcc /\ UNCHANGED <<idx, cinit>> /\ Mut(A("update_prediction", "", FlatPoses(tr)))
 UpdInit(pose, maxh) ==
     /\ P' = [P EXCEPT !.ob.hist = HistAfter(P.ob, maxh), !.ob.init = pose, !.ob.t0 = P.ob.t0 + 1,
                       !.ob.has = 0, !.ob.traj = <<>>]
@@ -62,7 +67,7 @@ RemLan(i) == /\ i \in P.net.L /\ P' = [P EXCEPT !.net.L = @ \ {i}]
              /\ idx' = [j \in P.net.L \ {i} |-> P.net.ring[j]] /\ UNCHANGED <<occC, cinit>> /\ Mut(A("remove_lanelet", "", <<i>>))
 Inval == IF DEV_NoInvalidateCycle THEN cinit ELSE NoCyc
 SetCycle(c) == /\ P' = [P EXCEPT !.lgt.cyc = c] /\ cinit' = Inval /\ UNCHANGED <<occC, idx>>
-               /\ Mut(A("set_cycle_elements", "", <<Len(c)>> \o [i \in 1..Len(c) |-> c[i].d]))
+               /\ Mut(A("set_cycle_elements", "", CycArg(c)))
 SetOff(o) == /\ P' = [P EXCEPT !.lgt.off = o] /\ cinit' = Inval /\ UNCHANGED <<occC, idx>> /\ Mut(A("set_offset", "", <<o>>))
 SetDur(d) == /\ P' = [P EXCEPT !.lgt.cyc[1].d = d] /\ cinit' = Inval /\ UNCHANGED <<occC, idx>> /\ Mut(A("set_duration", "", <<1, d>>))
 
